@@ -21,7 +21,7 @@ LEVEL_TEXT = ('every schedule of the visible operations of the concurrent proces
               'put of every history the old pairs must be byte-identical and exactly one new complete pair must hold the trashed entry')
 LEVEL_NOTE = ('visible = operations with an entry path in the shared zone (trash dir and its not-yet-existing ancestors); the independence of all other operations is checked by an audit over '
               'the recorded traces, a hit is a harness error; state hashing uses the observation history of each process (sound, finer than necessary)')
-RULE = ('(a) histories of length <= 4 (thorough 6) over {put file a from d1, put dir a from d2, put symlink a from d3} from 6 initial trash states (empty, orphan file payload, orphan dir payload, files/ relocated behind a symbolic link, '
+RULE = ('(a) histories of length <= 4 (thorough 6) over {put file a from d1, put dir a from d2, put symlink a from d3} from 6 initial trash states (empty, orphan file payload, orphan dir payload, files/ relocated behind a symbolic link, a trash directory named as --trash-dir LINK/../T with look-alikes where a lexical collapse would point, '
         'orphan info, both at a_1); names of 244-255 bytes trashed three times (truncation branch); 100 pre-existing entries + 3 puts x all random answer sequences of length 4 over {existing pair, orphan payload, orphan info, fresh}; (b) concurrent harnesses: '
         '2 puts warm, 2 puts cold (first use, the makedirs race), file+dir mix warm, 3 puts warm (thorough: unbounded; quick: preemption bound 2), 2 puts into .Trash-uid cold; distinct = terminal outcome classes per harness')
 B = '/home/u'
@@ -163,7 +163,7 @@ def replay_case(case):
 
 # =============================================================================================== (a) E2
 SEQ_ACTIONS = ['file', 'tree', 'ldang']
-INITS = ['empty', 'orphan-file', 'orphan-dir', 'orphan-info', 'both-at-a_1', 'files-symlinked']
+INITS = ['empty', 'orphan-file', 'orphan-dir', 'orphan-info', 'both-at-a_1', 'files-symlinked', 'td-dotdot']
 STORE = '/home/u/.local/share/store'
 
 
@@ -181,6 +181,14 @@ def seq_world(init):
     elif init == 'both-at-a_1':
         W.file(TD + '/files/a_1', 'orphan payload at a_1\n')
         W.file(TD + '/info/a_2.trashinfo', '[Trash Info]\nPath=/elsewhere/a\nDeletionDate=2018-01-01T00:00:00\n')
+    elif init == 'td-dotdot':
+        # every put names its trash directory as --trash-dir lk/../T: lk -> B/real/sub, so the kernel means B/real/T; a lexical collapse means
+        # <cwd>/T, a look-alike that already holds an entry called a
+        W.dir(B + '/real/sub')
+        scen.add_trash_dir(W, B + '/real/T')
+        for i in range(len(SEQ_ACTIONS)):
+            W.link('%s/s%d/lk' % (B, i), B + '/real/sub')
+            scen.add_trashed(W, '%s/s%d/T' % (B, i), 'a', '/elsewhere/a', '2018-01-01T00:00:00', tag='look-alike %d' % i)
     elif init == 'files-symlinked':
         # the user relocated files/ and left a symbolic link behind; one complete pair is already there
         del W.nodes[TD + '/files']
@@ -202,7 +210,7 @@ def _through_link(snap):
     return out
 
 
-def put_step(sb, kind_i, k, n, randints=None, name='a'):
+def put_step(sb, kind_i, k, n, randints=None, name='a', tdopt=()):
     """re-create entry `a` of kind k in its directory, trash it, check the step invariant; -> (violation|None, state hash)"""
     d = '%s/s%d' % (B, kind_i)
     Wx = world.World()
@@ -214,13 +222,13 @@ def put_step(sb, kind_i, k, n, randints=None, name='a'):
     world.build(sb.root, nodes)
     before = _through_link(sb.snapshot())
     plan = {'randints': randints} if randints is not None else None
-    r = sb.run(['trash-put', name], cwd=d, env={'HOME': B}, now='2024-05-06T07:%02d:%02d' % (n // 60, n % 60), plan=plan)
+    r = sb.run(['trash-put'] + list(tdopt) + [name], cwd=d, env={'HOME': B}, now='2024-05-06T07:%02d:%02d' % (n // 60, n % 60), plan=plan)
     after = _through_link(sb.snapshot())
     cl = scen.classify_put(before, after, d + '/' + name)
     detail = {'exit': r.exit, 'err': r.err[-300:], 'state': cl['state'], 'why': cl['why'], 'new': [cl['new_infos'], cl['new_payloads']]}
     if r.exit != 0 or cl['state'] != 'TRASHED':
         return ('C04|sequential-put-not-a-clean-new-pair|state=%s' % cl['state'], 'seq-not-trashed', detail), None
-    changed = [p for p in before if (p.startswith(TD + '/files/') or p.startswith(TD + '/info/')) and before[p] != after.get(p) and before[p][0] != 'd']
+    changed = [p for p in before if ('/files/' in p or '/info/' in p) and not p.startswith(d + '/' + name) and before[p] != after.get(p) and before[p][0] != 'd']
     changed += [p for p in before if (p.startswith(TD + '/files/') and before[p][0] == 'd' and p not in after)]
     if changed:
         return ('C04|sequential-put-changed-an-existing-trash-entry', 'seq-old-changed', dict(detail, changed=changed[:5])), None
@@ -265,7 +273,8 @@ def seq_case(c):
             rnd = [m.get(a, None) for a in c['answers']]
             rnd = [v if v is not None else 5000 + i for i, v in enumerate(rnd)]
         for n, ai in enumerate(c['hist']):
-            v, h = put_step(sb, ai, SEQ_ACTIONS[ai], n, randints=rnd, name=(c['names'][n] if c.get('names') else c.get('name', 'a')))
+            v, h = put_step(sb, ai, SEQ_ACTIONS[ai], n, randints=rnd, name=(c['names'][n] if c.get('names') else c.get('name', 'a')),
+                            tdopt=(['--trash-dir', 'lk/../T'] if c['init'] == 'td-dotdot' else ()))
             if rnd is not None:
                 rnd = rnd[1:] if False else rnd       # answers are consumed inside one process; each put restarts the list
             if v:
